@@ -1,4 +1,4 @@
-//! Net live heap blocks of the process, counted by a wrapping global allocator. Only compiled into
+//! Net live heap blocks and bytes of the process, counted by a wrapping global allocator. Only compiled into
 //! the ASan build (`--cfg verif_asan`), where it is the cheap first stage of the leak oracle: a
 //! history whose net block count is not zero is run again (lazy statics and caches are warm then)
 //! and, if it still is not zero, LeakSanitizer decides.
@@ -9,6 +9,10 @@ mod imp {
     use std::sync::atomic::{AtomicI64, Ordering};
 
     pub static LIVE: AtomicI64 = AtomicI64::new(0);
+    /// sum of the sizes requested at allocation minus the sizes stated at deallocation: with net
+    /// zero blocks this is zero exactly when every block was given back with the size it was
+    /// allocated with (the `GlobalAlloc` contract; a `CString` rebuilt from a shorter `strlen` breaks it)
+    pub static BYTES: AtomicI64 = AtomicI64::new(0);
 
     pub struct Counting;
 
@@ -18,6 +22,7 @@ mod imp {
             let p = System.alloc(l);
             if !p.is_null() {
                 LIVE.fetch_add(1, Ordering::Relaxed);
+                BYTES.fetch_add(l.size() as i64, Ordering::Relaxed);
             }
             p
         }
@@ -25,15 +30,21 @@ mod imp {
             let p = System.alloc_zeroed(l);
             if !p.is_null() {
                 LIVE.fetch_add(1, Ordering::Relaxed);
+                BYTES.fetch_add(l.size() as i64, Ordering::Relaxed);
             }
             p
         }
         unsafe fn dealloc(&self, p: *mut u8, l: Layout) {
             LIVE.fetch_sub(1, Ordering::Relaxed);
+            BYTES.fetch_sub(l.size() as i64, Ordering::Relaxed);
             System.dealloc(p, l)
         }
         unsafe fn realloc(&self, p: *mut u8, l: Layout, n: usize) -> *mut u8 {
-            System.realloc(p, l, n)
+            let q = System.realloc(p, l, n);
+            if !q.is_null() {
+                BYTES.fetch_add(n as i64 - l.size() as i64, Ordering::Relaxed);
+            }
+            q
         }
     }
 
@@ -46,6 +57,18 @@ pub fn live_blocks() -> Option<i64> {
     #[cfg(verif_asan)]
     {
         Some(imp::LIVE.load(std::sync::atomic::Ordering::Relaxed))
+    }
+    #[cfg(not(verif_asan))]
+    {
+        None
+    }
+}
+
+/// `None` outside the ASan build.
+pub fn live_bytes() -> Option<i64> {
+    #[cfg(verif_asan)]
+    {
+        Some(imp::BYTES.load(std::sync::atomic::Ordering::Relaxed))
     }
     #[cfg(not(verif_asan))]
     {
